@@ -15,6 +15,9 @@
      BlkOut  {out}             the block function returned
      SubRet {out} / SubRaise {exc}     the inner CBC call ended
      Ret {out} / Raise {exc}           the top-level call ended
+     Perms   {p1, ok}          pypdf's AlgV5.verify_perms answered ok for the expected 12-byte prefix p1
+   Calls made through the names patch_pypdf_fallback_aes() binds into pypdf are recorded under the function
+   the NAME promises (pypdf._encryption.aes_ecb_decrypt -> fn = "ecb_dec"), whatever object is bound there.
    Every event must be the specification's next step with exactly the logged values; the machine
    state (key schedule w, state st, round rnd, phase ph, chaining block prev, output so far) is
    the specification's, so a logged step is compared with the spec action applied to the previous
@@ -115,12 +118,21 @@ TraceRaise ==
        ELSE /\ wr.ph \in {"called", "sub"}
             /\ WrapOutcomeOK("raise", Ev.exc) /\ WrapEnd /\ AesSame /\ ModeSame
 
+\* end to end through pypdf: AlgV5.verify_perms(key, perms, p, meta) ECB-decrypts the /Perms block (the Call .. Ret
+\* before this event, recorded under the NAME pypdf calls) and answers whether the first 12 bytes are
+\* p1 = LE32(p) || ff ff ff ff || 'T'/'F' || "adb" (ISO 32000-2 7.6.4.4.12).  outp is the specification's decryption.
+TracePerms ==
+    /\ IsEvent("Perms")
+    /\ wr.ph = "none" /\ res = "ok" /\ Len(outp) = 16 /\ Len(Ev.p1) = 12
+    /\ Ev.ok = (SubSeq(outp, 1, 12) = Ev.p1)
+    /\ AllSame
+
 TraceInit == tid \in 1..Len(Traces) /\ l = 1 /\ ModeInit /\ wr = WrNone
 
 TraceNext == \/ TraceTable \/ TraceUnit \/ TraceFresh
              \/ TraceCall \/ TraceSub \/ TraceKW \/ TraceBlk
              \/ TraceARK \/ TraceSUB \/ TraceSHIFT \/ TraceMIX \/ TraceISHIFT \/ TraceISUB \/ TraceIMIX
-             \/ TraceBlkOut \/ TraceSubRet \/ TraceSubRaise \/ TraceRet \/ TraceRaise
+             \/ TraceBlkOut \/ TraceSubRet \/ TraceSubRaise \/ TraceRet \/ TraceRaise \/ TracePerms
 
 TraceSpec == TraceInit /\ [][TraceNext]_vars
 
